@@ -27,6 +27,7 @@ type State struct {
 	masterSecret              []byte
 	exporterMasterSecret      []byte // DTLS 1.3: exporter_master_secret of RFC 8446 section 7.5
 	sequenceNumber            uint64
+	remoteSequenceNumber      uint64 // highest record number accepted in the remote epoch
 	srtpProtectionProfile     SRTPProtectionProfile
 	peerSRTPMKI               []byte
 	localConnectionID         []byte
@@ -51,6 +52,7 @@ type serializedState struct {
 	CipherSuiteID         uint16
 	MasterSecret          []byte
 	SequenceNumber        uint64
+	RemoteSequenceNumber  uint64
 	SRTPProtectionProfile uint16
 	PeerSRTPMKI           []byte
 	PeerCertificates      [][]byte
@@ -76,6 +78,12 @@ func generateState(internalState *dtlsstate.State) (*State, error) {
 	if int(epoch) < len(internalState.LocalSequenceNumber) {
 		sequenceNumber = atomic.LoadUint64(&internalState.LocalSequenceNumber[epoch])
 	}
+	// What the connection has accepted so far: the resumed connection refuses it.
+	remoteEpoch := internalState.RemoteEpoch()
+	var remoteSequenceNumber uint64
+	if int(remoteEpoch) < len(internalState.RemoteSequenceNumber) {
+		remoteSequenceNumber = atomic.LoadUint64(&internalState.RemoteSequenceNumber[remoteEpoch])
+	}
 	profile := internalState.SRTPProtectionProfile()
 	var peerMKI []byte
 	if profile != 0 {
@@ -89,6 +97,7 @@ func generateState(internalState *dtlsstate.State) (*State, error) {
 		remoteRandom:          internalState.RemoteRandom,
 		masterSecret:          internalState.MasterSecret,
 		sequenceNumber:        sequenceNumber,
+		remoteSequenceNumber:  remoteSequenceNumber,
 		srtpProtectionProfile: profile,
 		peerSRTPMKI:           peerMKI,
 		localConnectionID:     internalState.LocalConnectionID(),
@@ -173,6 +182,7 @@ func (s *State) serialize() (*serializedState, error) {
 		CipherSuiteID:         uint16(s.CipherSuiteID),
 		MasterSecret:          s.masterSecret,
 		SequenceNumber:        s.sequenceNumber,
+		RemoteSequenceNumber:  s.remoteSequenceNumber,
 		LocalRandom:           s.localRandom.MarshalFixed(),
 		RemoteRandom:          s.remoteRandom.MarshalFixed(),
 		SRTPProtectionProfile: uint16(s.srtpProtectionProfile),
@@ -199,6 +209,7 @@ func (s *State) deserialize(serialized serializedState) {
 	s.remoteRandom.UnmarshalFixed(serialized.RemoteRandom)
 	s.masterSecret = serialized.MasterSecret
 	s.sequenceNumber = serialized.SequenceNumber
+	s.remoteSequenceNumber = serialized.RemoteSequenceNumber
 	s.srtpProtectionProfile = SRTPProtectionProfile(serialized.SRTPProtectionProfile)
 	s.peerSRTPMKI = bytes.Clone(serialized.PeerSRTPMKI)
 	s.localConnectionID = serialized.LocalConnectionID
@@ -274,6 +285,11 @@ func (s *State) generateInternalState() (*dtlsstate.State, error) {
 		state.LocalSequenceNumber = append(state.LocalSequenceNumber, uint64(0))
 	}
 	atomic.StoreUint64(&state.LocalSequenceNumber[s.localEpoch], s.sequenceNumber)
+
+	for len(state.RemoteSequenceNumber) <= int(s.remoteEpoch) {
+		state.RemoteSequenceNumber = append(state.RemoteSequenceNumber, uint64(0))
+	}
+	atomic.StoreUint64(&state.RemoteSequenceNumber[s.remoteEpoch], s.remoteSequenceNumber)
 
 	if err := state.InitCipherSuite(); err != nil {
 		return nil, err
